@@ -253,4 +253,39 @@ Fixpoint mhistory (m : list (list T)) (h : list mstep) : res (list (list T)) :=
 Definition vecm (v : list T) (m : list (list T)) : res (list T) :=
   if Nat.eqb (length v) (mrowsn m) then Ok (map (fun i => vdot v (mcol m i)) (seq 0 (mcolsn m))) else Exit.
 
+(** ** Histories of CALLS in one process.
+
+    Rotation_Matrix, both Spherical_Coordinates and Angle are free functions; as the source stands none of them (and none of the
+    Vector / Matrix members they use) has a function-local static, a global or a cache: every local (cosa, sina, ev, aux, ...)
+    is computed from the arguments of the call.  The state a history of calls leaves behind is therefore empty, and the
+    model of `call_1; ...; call_m` in one process is the list of the answers of the calls, made one after the other (the
+    first call that exits ends the process).  The harness makes the same calls in one process that has run nothing
+    else, on temporaries or on live Vector objects that serve several calls. *)
+Inductive call : Type :=
+| CRot (alpha : T) (dim : Z) (axis : list T)        (* Rotation_Matrix(alpha, dim, axis) *)
+| CRotDefault (alpha : T) (dim : Z)                 (* Rotation_Matrix(alpha, dim): the default axis Vector({0, 0, 1}) *)
+| CSph (r theta phi : T)                            (* Spherical_Coordinates(r, theta, phi) *)
+| CSphAxis (r theta phi : T) (axis : list T)        (* Spherical_Coordinates(r, theta, phi, axis) *)
+| CAngle (a b : list T)                             (* Angle(a, b) *).
+Inductive answer : Type :=
+| AMat (m : list (list T))
+| AVec (v : list T)
+| ANum (x : T).
+
+Definition call_answer (hypot : T -> T -> T) (c : call) : res answer :=
+  match c with
+  | CRot alpha dim axis => rbind (rotation_matrix alpha dim axis) (fun m => Ok (AMat m))
+  | CRotDefault alpha dim => rbind (rotation_matrix alpha dim [zero; zero; one]) (fun m => Ok (AMat m))
+  | CSph r theta phi => Ok (AVec (spherical r theta phi))
+  | CSphAxis r theta phi axis => rbind (spherical_axis hypot r theta phi axis) (fun v => Ok (AVec v))
+  | CAngle a b => rbind (angle a b) (fun x => Ok (ANum x))
+  end.
+
+(** the answers of a history of calls made in one process *)
+Fixpoint calls_run (hypot : T -> T -> T) (cs : list call) : res (list answer) :=
+  match cs with
+  | [] => Ok []
+  | c :: cs' => rbind (call_answer hypot c) (fun a => rbind (calls_run hypot cs') (fun l => Ok (a :: l)))
+  end.
+
 End C16.
